@@ -3,6 +3,8 @@ import json, os
 from . import common as C
 from . import worker as W
 from . import net as NET
+from . import xfer as X
+import random, shutil, time
 
 
 def worker_families(res, quick, thorough):
@@ -38,6 +40,7 @@ def c08(res):
 
 def c13(res):
     worker_families(res, ["MC_RecvCoreQuick", "MC_RecvDevfull"], ["MC_RecvCoreFull", "MC_RecvDevfull"])
+    c13_second_clause(res)
 
 
 def c15(res):
@@ -241,6 +244,330 @@ def c09_first_reply(res):
     res.assumptions += ["first reply compared field by field with Negotiate (Options.tla); silence confirmed by a sentinel exchange with the single-threaded listener"]
 
 
+def judge_transfers(res, events, tag):
+    """Per-transfer traces recorded against the real process, judged by Trace_Transfer."""
+    return judge_net_trace(res, events, tag, module="Trace_Transfer", sample_kind="cfg")
+
+
+def with_server(tag, shared=True, **flags):
+    C.build_bins()
+    sb = NET.Sandbox(os.path.join(C.WORK, "sbx", "%s-%d" % (tag, os.getpid()), "base"), shared)
+    return sb, NET.Server(sb, **flags)
+
+
+def drop_server(sb, srv):
+    srv.stop()
+    shutil.rmtree(os.path.dirname(sb.base), ignore_errors=True)
+
+
+def geometry(rng, blk):
+    """(nb, last) around block / window boundaries; last is 0 or >= 4 so that it is recognisable"""
+    nb = rng.choice([1, 1, 2, 3, 4, 5, 7, 9])
+    last = rng.choice([0, 4, blk - 1])
+    return nb, last
+
+
+def intruder_burst(srv, rng, sid0, worker_ports):
+    """Foreign endpoint: well-formed non-request packets at the listening port (each must be
+    answered with ERROR 4 by the listener) and at live workers' ports (must have no effect)."""
+    evs = []
+    for j in range(3):
+        kind = rng.choice(["ack", "data", "error", "oack"])
+        pkt = {"ack": NET.ack(rng.randrange(4)), "data": NET.data(rng.randrange(4), b"intruder"),
+               "error": NET.error(rng.randrange(8)), "oack": b"\0\6blksize\0" + b"8\0"}[kind]
+        evs.append(NET.exchange(srv, pkt, sid0 + j, complete_uploads=False, track=False))
+        for port in list(worker_ports)[:4]:
+            s = __import__("socket").socket(__import__("socket").AF_INET, __import__("socket").SOCK_DGRAM)
+            s.sendto(pkt, (NET.HOST, port))
+            s.close()
+    return evs
+
+
+def concurrent_scenario(res, tag, single, k, rng, rounds):
+    """K concurrent model clients (mixed uploads / downloads of distinct files, random options)
+    plus an intruder; each client's projection must be a lone transfer of its own file."""
+    sb, srv = with_server(tag, shared=True, single=single, ow=True)
+    xfer_events, req_events = [], [srv.cfg_event()]
+    ok_all = True
+    try:
+        sid = 0
+        for rnd in range(rounds):
+            clients = []
+            for c in range(k):
+                blk = rng.choice([8, 9, 16, 512])
+                w = rng.choice([1, 1, 2, 3, 4])
+                opts = rng.choice([[], [("blksize", blk)], [("blksize", blk), ("windowsize", w)], [("windowsize", w)]])
+                eff_blk = blk if any(o[0] == "blksize" for o in opts) else 512
+                nb, last = geometry(rng, eff_blk)
+                name = ("f%d_%d.bin" % (rnd, c)).encode()
+                if rng.random() < 0.5:
+                    content = X.make_file(nb, eff_blk, last)
+                    # distinct content per file: shift ids so that slices of different files differ
+                    content = b"".join(X.payload(1000 * (c + 1) + i, eff_blk if i < nb else last) for i in range(1, nb + 1))
+                    with open(os.path.join(sb.send, name.decode()), "wb") as f:
+                        f.write(content)
+                    clients.append(X.Download(srv, "dl-%d-%d" % (rnd, c), name, content, opts=opts))
+                else:
+                    clients.append(X.Upload(srv, "ul-%d-%d" % (rnd, c), name, nb, last, opts=opts,
+                                            target=os.path.join(sb.recv, name.decode())))
+            for c in clients:
+                c.start()
+            live = [c for c in clients if not c.done]
+            while live:
+                c = rng.choice(live)
+                c.step()
+                if rng.random() < 0.15:
+                    ports = set()
+                    for x in clients:
+                        ports |= {p for p in x.wire_from if p != srv.port}
+                    req_events += intruder_burst(srv, rng, sid, ports)
+                    sid += 3
+                live = [c for c in clients if not c.done]
+            X.server_outcomes(srv, clients)
+            for c in clients:
+                xfer_events += c.events
+                if not c.finished_ok:
+                    xfer_events.append({"e": "cfg", "role": "send", "M": 65536, "W": 1, "NB": 1, "R": 1, "T": 5,
+                                        "chk": False, "clean": True, "base0": 0, "lastempty": False, "devfull": False,
+                                        "label": "incomplete:" + c.label, "net": True})
+                    xfer_events.append({"e": "hang"})
+                # single-port: every datagram comes from the listening port; multi: from one other port
+                wrong = (c.wire_from != {srv.port}) if single else (srv.port in c.wire_from and c.started and len(c.wire_from) != 1)
+                if c.started and wrong:
+                    req_events.append({"e": "portmix", "label": c.label, "ports": sorted(c.wire_from)})
+                c.close()
+            # uploaded files byte-identical on disk
+            for c in clients:
+                if isinstance(c, X.Upload) and c.started:
+                    want = b"".join(c.block(i) for i in range(1, c.nb + 1))
+                    have = open(c.target, "rb").read() if os.path.exists(c.target) else None
+                    if have != want:
+                        req_events.append({"e": "diskdiff", "label": c.label})
+        alive = srv.alive()
+    finally:
+        drop_server(sb, srv)
+    return xfer_events, req_events, alive
+
+
+def c12(res):
+    q = res.tier == "quick"
+    rng = random.Random(C.seed())
+    W.model_check(res, "MC_Server_Iso", module="MC_Server")
+    for single in (False, True):
+        tag = "concurrent-%s" % ("single" if single else "multi")
+        xe, re_, alive = concurrent_scenario(res, tag, single, k=5 if q else 16, rng=rng, rounds=6 if q else 20)
+        judge_transfers(res, xe, tag)
+        # intruder exchanges: Trace_Requests (foreign packets must get ERROR 4 from the listener)
+        sbdevs = judge_net_trace(res, [e for e in re_ if e.get("e") in ("cfg", "req")], tag + "-intruder")
+        for e in re_:
+            if e.get("e") in ("portmix", "diskdiff"):
+                res.add_violation("%s|%s|%s" % (e["e"], tag, e["label"]), "C12: %s in %s: %s" % (e["e"], tag, json.dumps(e)),
+                                  {"kind": "net-scenario", "event": e, "seed": C.seed()})
+        if not alive:
+            res.add_violation("dead|%s" % tag, "C12: server process died during %s" % tag, {"kind": "net-scenario", "seed": C.seed()})
+    res.assumptions += ["concurrent transfers touch distinct files", "interleaving chosen by a seeded scheduler at step granularity in one driver thread; the server's own thread scheduling is recorded, not controlled"]
+
+
+class UploadHistory:
+    """Drives several write requests for one name against the real process and records what
+    Server.tla talks about: accepted requests, workers' progress, failures, the file on disk."""
+
+    NB = 2
+
+    def __init__(self, srv, sb):
+        import socket
+        self.srv, self.sb = srv, sb
+        self.socks = {}
+        for ep in ("c1", "c2"):
+            s = socket.socket(socket.AF_INET, socket.SOCK_DGRAM)
+            s.bind((NET.HOST, 0))
+            self.socks[ep] = s
+        self.workers = []      # dict(ep, name, port, k, state)
+        self.events = [{"e": "reset"}]
+
+    def close(self):
+        for s in self.socks.values():
+            s.close()
+
+    def recv(self, ep, timeout=0.5):
+        b, addr = NET.recv_reply(self.socks[ep], timeout)
+        return (NET.parse(b), addr) if b is not None else (None, None)
+
+    def wrq(self, ep, name):
+        self.socks[ep].sendto(NET.rq(2, name.encode()), (NET.HOST, self.srv.port))
+        p, addr = self.recv(ep, 1.0)
+        if p is None:
+            self.events.append({"e": "wrq", "ep": ep, "name": name, "reply": "none", "code": 0, "wid": 0})
+            return 0
+        if p["k"] == "ack" and p["n"] == 0:
+            self.workers.append({"ep": ep, "name": name, "port": addr[1], "k": 0, "state": "open"})
+            wid = len(self.workers)
+            self.events.append({"e": "wrq", "ep": ep, "name": name, "reply": "ack0", "code": 0, "wid": wid})
+            time.sleep(0.03)       # the worker thread creates the file right after it is spawned
+            self.events.append({"e": "opened", "wid": wid})
+            return wid
+        self.events.append({"e": "wrq", "ep": ep, "name": name, "reply": p["k"], "code": p.get("code", 0), "wid": 0})
+        return 0
+
+    def block(self, wid):
+        w = self.workers[wid - 1]
+        i = w["k"] + 1
+        size = 512 if i < self.NB else 6
+        self.socks[w["ep"]].sendto(NET.data(i, X.payload(wid * 1000 + i, size)), (NET.HOST, w["port"]))
+        p, addr = self.recv(w["ep"], 1.0)
+        if p == {"k": "ack", "n": i}:
+            w["k"] = i
+            self.events.append({"e": "block", "wid": wid})
+            if i == self.NB:
+                w["state"] = "done"
+                self.events.append({"e": "finish", "wid": wid})
+            return True
+        self.events.append({"e": "noack", "wid": wid})
+        return False
+
+    def fail(self, wid):
+        w = self.workers[wid - 1]
+        before = self.srv.output().count("while receiving")
+        self.socks[w["ep"]].sendto(NET.error(0, b"abort"), (NET.HOST, w["port"]))
+        deadline = time.time() + 1.0
+        while time.time() < deadline and self.srv.output().count("while receiving") == before:
+            time.sleep(0.01)
+        time.sleep(0.02)
+        w["state"] = "failed"
+        self.events.append({"e": "fail", "wid": wid, "cause": "error"})
+
+    def disk(self, name):
+        path = os.path.join(self.sb.recv, name)
+        if not os.path.lexists(path):
+            self.events.append({"e": "disk", "name": name, "st": "absent", "by": 0, "k": 0, "mixed": False})
+            return
+        b = open(path, "rb").read()
+        ids = []
+        at = 0
+        while at < len(b):
+            chunk = b[at:at + 512]
+            ids.append(X.payload_id(chunk))
+            at += 512
+        owners = {i // 1000 for i in ids}
+        by = ids[0] // 1000 if ids else 0
+        clean_run = len(owners) <= 1 and [i % 1000 for i in ids] == list(range(1, len(ids) + 1))
+        self.events.append({"e": "disk", "name": name, "st": "file", "by": by, "k": len(ids) if clean_run else -1,
+                            "mixed": not clean_run, "size": len(b)})
+
+
+def upload_histories(single, ow, clean, rng, n_random):
+    """The scripted histories (incl. the stale-request history of DESIGN.md D6) and seeded random ones."""
+    sb, srv = with_server("hist", shared=True, single=single, ow=ow, clean=clean)
+    events = []
+    alive = True
+    try:
+        def fresh():
+            h = UploadHistory(srv, sb)
+            for n in ("f", "g"):
+                p = os.path.join(sb.recv, n)
+                if os.path.lexists(p):
+                    os.remove(p)
+            return h
+        scripted = [
+            # a lone upload that fails half way / completes
+            [("wrq", "c1", "f"), ("block", 1), ("disk", "f"), ("fail", 1), ("disk", "f")],
+            [("wrq", "c1", "f"), ("block", 1), ("block", 1), ("disk", "f")],
+            # retransmitted request: the later one completes, then the earlier one fails
+            [("wrq", "c1", "f"), ("wrq", "c1", "f"), ("block", 2), ("block", 2), ("disk", "f"), ("fail", 1), ("disk", "f")],
+            # duplicate request from another endpoint, other name in between
+            [("wrq", "c1", "f"), ("wrq", "c2", "f"), ("wrq", "c1", "g"), ("block", 2), ("block", 2), ("block", 3),
+             ("disk", "f"), ("fail", 1), ("disk", "f"), ("block", 3), ("disk", "g")],
+            # the earlier one fails first: nothing of the later one may be lost afterwards
+            [("wrq", "c1", "f"), ("wrq", "c2", "f"), ("fail", 1), ("disk", "f"), ("block", 2), ("block", 2), ("disk", "f")],
+        ]
+        for steps in scripted + [None] * n_random:
+            h = fresh()
+            if steps is None:
+                steps = []
+                nw = 0
+                for _ in range(rng.randrange(3, 9)):
+                    kind = rng.choice(["wrq", "block", "block", "fail", "disk"]) if nw else "wrq"
+                    if kind == "wrq" and nw < 3:
+                        steps.append(("wrq", rng.choice(["c1", "c2"]), rng.choice(["f", "f", "g"])))
+                        nw += 1
+                    elif kind in ("block", "fail"):
+                        steps.append((kind, rng.randrange(1, nw + 1)))
+                    else:
+                        steps.append(("disk", rng.choice(["f", "g"])))
+                steps += [("disk", "f"), ("disk", "g")]
+            for st in steps:
+                if st[0] == "wrq":
+                    h.wrq(st[1], st[2])
+                elif st[0] in ("block", "fail"):
+                    if st[1] <= len(h.workers) and h.workers[st[1] - 1]["state"] == "open":
+                        w = h.workers[st[1] - 1]
+                        if single and any(x["ep"] == w["ep"] for x in h.workers[st[1]:]):
+                            continue       # single port: the endpoint now routes to a later worker
+                        later = any(x["name"] == w["name"] for x in h.workers[st[1]:])
+                        if st[0] == "block":
+                            # scope of C13's second clause: once a later request for the name has been
+                            # accepted the client goes on with that one; the earlier transfer only fails
+                            if not later:
+                                h.block(st[1])
+                        elif not single:
+                            h.fail(st[1])
+                else:
+                    h.disk(st[1])
+            # let every worker still alive go (ERROR), unrecorded, so that histories do not leak
+            for wid, w in enumerate(h.workers, 1):
+                if w["state"] == "open" and not single:
+                    h.socks[w["ep"]].sendto(NET.error(0, b"end"), (NET.HOST, w["port"]))
+            time.sleep(0.05)
+            events += h.events
+            h.close()
+        alive = srv.alive()
+    finally:
+        drop_server(sb, srv)
+    return events, alive
+
+
+def c13_second_clause(res):
+    q = res.tier == "quick"
+    rng = random.Random(C.seed())
+    for name in ["MC_Server_Iso", "MC_Server_NoOverwrite"] + ([] if q else ["MC_Server_IsoSingle"]):
+        W.model_check(res, name, module="MC_Server")
+    combos = [("Multi_Ow_Clean", False, True, True), ("Multi_Ow_Keep", False, True, False),
+              ("Multi_NoOw_Clean", False, False, True), ("Single_Ow_Clean", True, True, True)]
+    for cname, single, ow, clean in (combos[:3] if q else combos):
+        events, alive = upload_histories(single, ow, clean, rng, 6 if q else 60)
+        tag = "upload-histories-" + cname
+        tdir = os.path.join(C.WORK, "traces")
+        os.makedirs(tdir, exist_ok=True)
+        tpath = os.path.join(tdir, "%s-%d.trace.ndjson" % (tag, os.getpid()))
+        NET.write_trace(tpath, events)
+        devs, nev, _ = W.judge(tpath, module="Trace_Server", cfg="Trace_Server_%s.cfg" % cname)
+        res.events += nev
+        nh = sum(1 for e in events if e["e"] == "reset")
+        res.traces += nh
+        res.legs.append({"family": tag, "histories": nh, "events": nev, "deviations": len(devs)})
+        if len(res.samples) < 4:
+            res.samples.append({"family": tag, "history": events[:12]})
+        for (ln, label) in devs:
+            k = ln - 1
+            while k > 0 and events[k]["e"] != "reset":
+                k -= 1
+            end = ln
+            while end < len(events) and events[end]["e"] != "reset":
+                end += 1
+            prev = events[ln - 2] if ln >= 2 else {}
+            props, lname = W.label_props(label)
+            sig = "%s|%s" % (lname, cname)
+            if res.prop in props:
+                res.add_violation(sig, "%s: %s in %s after %s: %s" % (res.prop, label, tag, json.dumps(prev), json.dumps(events[ln - 1])),
+                                  {"kind": "upload-history", "config": cname, "history": events[k:end], "first_unexplained_event": ln - k})
+            else:
+                res.drift[label] = res.drift.get(label, 0) + 1
+        if not devs:
+            os.remove(tpath)
+        if not alive:
+            res.add_violation("dead|" + cname, "server died during upload histories", {"kind": "upload-history", "config": cname})
+
+
 def c17(res):
     fams = ["MC_Cli_STokQuick", "MC_Cli_SItemQuick", "MC_Cli_CTokQuick", "MC_Cli_CItemQuick"] if res.tier == "quick" \
         else ["MC_Cli_STokFull", "MC_Cli_SItemFull", "MC_Cli_CTokFull", "MC_Cli_CItemFull"]
@@ -260,7 +587,7 @@ def c18(res):
                         "fill() after end of file yields further empty pieces (recorded behaviour; the property constrains the bytes handed out)"]
 
 
-CHECKS = {"C03": c03, "C06": c06, "C09": c09_first_reply, "C17": c17, "C10": codec, "C11": codec, "C18": c18, "C01": c01, "C02": c02, "C04": c04, "C07": c07, "C08": c08, "C13": c13, "C15": c15, "C16": c16}
+CHECKS = {"C12": c12, "C03": c03, "C06": c06, "C09": c09_first_reply, "C17": c17, "C10": codec, "C11": codec, "C18": c18, "C01": c01, "C02": c02, "C04": c04, "C07": c07, "C08": c08, "C13": c13, "C15": c15, "C16": c16}
 
 
 QUICK_FAMILIES = [
